@@ -206,7 +206,124 @@ func c02FlipKind(cs *h.Case, c *c02Case) string {
 	return "{" + strings.Join(parts, ",") + "}"
 }
 
+// rootCase: the converter is given the descriptor of a non-struct type (a field's type) and a document that is just
+// that value, surrounded by whitespace.  A STRING root keeps the documented special case (text that does not begin
+// with a quote is taken as the string itself), so string documents start with their quote.
+type rootCase struct {
+	idl       string
+	td        *thrift.TypeDescriptor
+	t         *gen.Type
+	v         *tref.Val
+	o         conv.Options
+	full, bad string // the document, and the same document cut inside its value ("" = none)
+	trail     string
+}
+
+func rootValueCase(cs *h.Case) (*rootCase, bool) {
+	sc := gen.GenSchema(cs.R, gen.Cfg{MaxDepth: 2, MaxFields: 6, Typedefs: true})
+	desc, _, err := ParseRoot(sc, thrift.NewDefaultOptions())
+	if err != nil {
+		cs.Viol("j2t:parse-idl", "err", err, "idl", sc.IDL())
+		return nil, false
+	}
+	f := sc.Root.Fields[cs.R.Intn(len(sc.Root.Fields))]
+	fd := desc.Struct().FieldById(thrift.FieldID(f.ID))
+	if fd == nil {
+		cs.Viol("j2t:root:field-missing", "id", f.ID)
+		return nil, false
+	}
+	rc := &rootCase{idl: sc.IDL(), td: fd.Type(), t: f.T}
+	rc.v = gen.GenVal(cs.R, f.T, c02GenValCfg(), 0)
+	if f.T.T == tref.STRING && cs.R.Chance(30) {
+		// lengths around the vector widths of the native string scanner
+		n := []int{15, 16, 17, 31, 32, 33, 63, 64, 65, 96, 128}[cs.R.Intn(11)]
+		rc.v = tref.Str(strings.Repeat("abcdefgh", 17)[:n])
+		if f.T.Bin {
+			rc.v = tref.Bin([]byte(strings.Repeat("abcdefgh", 17)[:n]))
+		}
+	}
+	rc.o = conv.Options{String2Int64: cs.R.Bool(), DisallowUnknownField: cs.R.Bool()}
+	sp := JSpell{WS: cs.R.Intn(3), EscapeMix: cs.R.Chance(40), NumExp: cs.R.Chance(50)}
+	doc := strings.TrimLeft(RenderJSON(cs.R, rc.v, f.T, sp, JOpts{Int642String: rc.o.String2Int64 && cs.R.Bool()}), " \n\t\r")
+	doc = strings.TrimRight(doc, " \n\t\r")
+	ws := func() string { return []string{"", " ", "\n", "\t", "\r\n  ", "  "}[cs.R.Intn(6)] }
+	lead, trail := ws(), ws()
+	if f.T.T == tref.STRING {
+		lead = ""
+	}
+	rc.full, rc.trail = lead+doc+trail, trail
+	switch f.T.T {
+	case tref.STRING:
+		if len(doc) >= 2 && doc[len(doc)-1] == '"' && doc[len(doc)-2] != '\\' {
+			rc.bad = doc[:len(doc)-1]
+		}
+	case tref.LIST, tref.SET, tref.MAP, tref.STRUCT:
+		if len(doc) > 1 {
+			rc.bad = lead + doc[:len(doc)-1]
+		}
+	}
+	return rc, true
+}
+
+func c02RootValues(c *h.Ctx) {
+	c.Run("root-values", c.N(2500, 60000), func(cs *h.Case) {
+		rc, ok := rootValueCase(cs)
+		if !ok {
+			return
+		}
+		cs.Info("idl", rc.idl)
+		cs.Info("root-type", rc.t.String())
+		cs.Info("doc", rc.full)
+		cs.Info("opts", fmt.Sprintf("%+v", rc.o))
+		cv := j2t.NewBinaryConv(rc.o)
+		tr := h.TrapCopy([]byte(rc.full), cs.R.Bool(), true)
+		out, err := cv.Do(context.Background(), rc.td, tr.B)
+		tr.Free()
+		cls := tref.TypeName(rc.t.T)
+		want := tref.Encode(rc.v.Clone())
+		if err != nil {
+			cs.Viol("j2t:root:error-on-conforming:"+cls, "err", err)
+			return
+		}
+		if !bytes.Equal(out, want) {
+			dec, derr := tref.Decode(out, rc.v.T)
+			sig := "j2t:root:bytes:" + cls
+			if derr == nil && equalModNegZero(dec, rc.v) && !tref.Equal(dec, rc.v) {
+				sig = "j2t:root:neg-zero-sign-lost"
+			}
+			cs.Viol(sig, "got", out, "want", want, "decode-error", derr)
+			return
+		}
+		cs.Cover("root_value_ok")
+		cs.Cover("root_value_ok_" + cls)
+		if rc.trail != "" {
+			cs.Cover("root_value_trailing_whitespace_ok")
+		}
+		// the same document cut inside its value must be rejected
+		if rc.bad != "" {
+			cs.Info("cut-doc", rc.bad)
+			tr := h.TrapCopy([]byte(rc.bad), true, true)
+			cv2 := j2t.NewBinaryConv(rc.o)
+			out, err := cv2.Do(context.Background(), rc.td, tr.B)
+			tr.Free()
+			if err == nil {
+				sig := "j2t:root:truncated-accepted:" + cls
+				if rc.t.T == tref.STRING && (len(rc.bad)-1)%32 == 0 {
+					// defect model of the known finding C02-K3: an unterminated string document whose text after the
+					// opening quote is a whole number of 32-byte vectors
+					sig += ":whole-vectors"
+				}
+				cs.Viol(sig, "doc", rc.bad, "out", out)
+				return
+			}
+			cs.Cover("root_value_truncated_rejected")
+		}
+		cs.Distinct("rv-" + cls + "-" + shapeKey(rc.v)[:min(len(shapeKey(rc.v)), 10)])
+	})
+}
+
 func runC02(c *h.Ctx) {
+	defer c02RootValues(c)
 	// ---- conforming documents --------------------------------------------------------
 	c.Run("docs", c.N(6000, 250000), func(cs *h.Case) {
 		cc, ok := c02Make(cs)
